@@ -55,6 +55,10 @@ type LSpec struct {
 	UserPkgUses map[string]string `json:"user_pkg_uses,omitempty"`
 	// PkgNames: directory → package name used by the declaring packages.
 	PkgNames map[string]string `json:"pkg_names"`
+	// WrapPkg: `-g "wrapErrorsUsing <module>/errwrap"` names a helper package that is not
+	// selected by the patterns and that only compiles under the run's build tag (it holds a
+	// user file guarded by the output constraint that refers to not-yet-generated code).
+	WrapPkg bool `json:"wrap_pkg,omitempty"`
 	// FileConstraint: declaring file (dir/file) → a //go:build expression that is satisfied on
 	// this platform; the declaring file is then a constrained user file.
 	FileConstraint map[string]string `json:"file_constraint,omitempty"`
@@ -241,6 +245,10 @@ func (s *LSpec) Render() map[string]string {
 	for _, gd := range s.guardedDecls {
 		files[gd[0]] = gd[1]
 	}
+	if s.WrapPkg {
+		files["errwrap/wrap.go"] = "package errwrap\n\ntype Elem struct{ K, V string }\n\nfunc Wrap(err error, elems ...Elem) error { return err }\nfunc Key(k any) Elem          { return Elem{K: \"key\"} }\nfunc Index(i int) Elem        { return Elem{K: \"index\"} }\nfunc Field(s string) Elem     { return Elem{K: \"field\"} }\n"
+		files["errwrap/uses_generated.go"] = fmt.Sprintf("//go:build !%s\n\npackage errwrap\n\n// refers to code that a later goverter run is going to generate into this package\nvar _ = notYetGeneratedHelper\n", s.tag())
+	}
 	for _, d := range s.PlainPkgs {
 		files[path.Join(d, "plain.go")] = fmt.Sprintf("// Package %s has no converters.\npackage %s\n\n// goverter is mentioned here only in prose.\ntype Plain struct{ N int }\n", normPkgName(d), normPkgName(d))
 	}
@@ -385,6 +393,9 @@ func (s *LSpec) World(name string) *World {
 	}
 	if s.GlobalOutFile != "" {
 		w.Globals = append(w.Globals, "output:file "+s.GlobalOutFile)
+	}
+	if s.WrapPkg {
+		w.Globals = append(w.Globals, "wrapErrorsUsing "+importPath("errwrap"))
 	}
 	sort.Strings(w.Patterns)
 	if s.Tag != "" || s.TagList != "" {
@@ -587,6 +598,9 @@ func DrawLayout(rng *rand.Rand, nConv int, opts LayoutOpts) *LSpec {
 	}
 	if opts.GuardedUser && rng.IntN(3) == 0 {
 		s.GuardedUser = true
+	}
+	if opts.GuardedUser && rng.IntN(5) == 0 {
+		s.WrapPkg = true
 	}
 	hasVars := false
 	for i := range s.Convs {
